@@ -24,11 +24,15 @@ Record obs := mkObs {
   o_marker_at_return : bool; (* the marker existed when Launch returned *)
   o_alive : bool;            (* /proc/<pid>/stat: the daemon is running *)
   o_reparented : bool;       (* its parent is not the caller *)
-  o_launcher_gone : bool     (* no child of the caller is left *)
+  o_launcher_gone : bool;    (* no child of the caller is left *)
+  o_survived : bool          (* ~300 ms after Launch returned the daemon is still running and has got past its
+                                late step (a write to its stderr in some variants): "keeps running after Launch
+                                returns". The daemon's stderr is outside Model/Daemon.v: judged on the Go side only,
+                                the model contributes nothing to this flag *)
 }.
 
 Definition spec_ok (o : obs) : bool :=
-  oclass_eqb (o_class o) OOk && o_pid_matches o && o_marker_at_return o && o_alive o && o_reparented o && o_launcher_gone o.
+  oclass_eqb (o_class o) OOk && o_pid_matches o && o_marker_at_return o && o_alive o && o_reparented o && o_launcher_gone o && o_survived o.
 
 Definition class_of (s : state) : oclass :=
   match result s with
